@@ -66,6 +66,19 @@ func c14Translate(evs []verif.Event, nodeModel map[string]string, w *hlib.NDJSON
 			known[hlib.KVStr(e, "id")] = true
 		}
 	}
+	alias := map[string]string{}
+	names := map[string]bool{}
+	for _, n := range nodeModel {
+		names[n] = true
+	}
+	for _, e := range evs {
+		// a connection of one of this run's producers that the daemon files under a key other than its remote
+		// address (the key is internal to the registry): still that producer
+		if e.Ev == "PeerIdentify" && !known[hlib.KVStr(e, "id")] && names[hlib.KVStr(e, "hostname")] {
+			known[hlib.KVStr(e, "id")] = true
+			alias[hlib.KVStr(e, "id")] = hlib.KVStr(e, "hostname")
+		}
+	}
 	for _, e := range evs {
 		if id := hlib.KVStr(e, "id"); id != "" && e.Ev != "CmdEnd" && !known[id] {
 			rep.Interfered = append(rep.Interfered, fmt.Sprintf("%s for foreign connection %s", e.Ev, id))
@@ -79,6 +92,9 @@ func c14Translate(evs []verif.Event, nodeModel map[string]string, w *hlib.NDJSON
 	idmap := map[string]string{}
 	who := func(id string) string {
 		if p, ok := idmap[id]; ok {
+			return p
+		}
+		if p, ok := alias[id]; ok {
 			return p
 		}
 		return "?" + id
